@@ -111,9 +111,11 @@ def lit_to_call(prog, entry='t'):
     return Program(list(helpers.values()) + funcs, types=prog.types, consts=prog.consts)
 
 
-def bind_subexpr(prog, entry='t'):
+def bind_subexpr(prog, entry='t', kinds=None):
     """R2: the first arithmetic subexpression nested inside a comparison / cast / division operand of a top-level
-    statement is bound to a fresh immutable local just before that statement."""
+    statement is bound to a fresh immutable local just before that statement.  (kinds: the expression classes that
+    may be bound; bind_cast binds the first nested CAST instead.)"""
+    kinds = kinds or (Bin,)
     f = prog.func(entry)
     done = [False]
     body = []
@@ -128,7 +130,7 @@ def bind_subexpr(prog, entry='t'):
                 return e
             for attr in ('l', 'r', 'e'):
                 sub = getattr(e, attr, None)
-                if isinstance(e, (Cmp, Cast, Bin)) and isinstance(sub, Bin) and isinstance(sub.ty, IntT):
+                if isinstance(e, (Cmp, Cast, Bin)) and isinstance(sub, kinds) and isinstance(sub.ty, IntT):
                     found.append(sub)
                     n = copy.copy(e)
                     setattr(n, attr, Var('h0', sub.ty))
@@ -235,4 +237,8 @@ def wrap_if_true_ret(prog, entry='t'):
     return wrap_if_true(prog, entry, wrap_last_return=True)
 
 
-REWRITES = {'lit2call': lit_to_call, 'bind': bind_subexpr, 'let2const': let_to_const, 'iftrue': wrap_if_true, 'iftrue_ret': wrap_if_true_ret}
+def bind_cast(prog, entry='t'):
+    return bind_subexpr(prog, entry, kinds=(Cast,))
+
+
+REWRITES = {'lit2call': lit_to_call, 'bind': bind_subexpr, 'bindcast': bind_cast, 'let2const': let_to_const, 'iftrue': wrap_if_true, 'iftrue_ret': wrap_if_true_ret}
